@@ -113,14 +113,14 @@ def pf_contract_storage(D, T=3, freq='h', unit='h', eff=0.75, wacc=False, win_s=
     return Shape(pf, tg, prices_for(D, ['p'], T))
 
 
-def pf_two_node(D, T=3, freq='h', unit='h', eff_s=0.75, eff_t=0.5, wacc=False, win_t=None, two_node_storage=False):
+def pf_two_node(D, T=3, freq='h', unit='h', eff_s=0.75, eff_t=0.5, wacc=False, win_t=None, two_node_storage=False, storage_kw=None):
     eao = lift.import_eao()
     tg = grid(T, freq, unit)
     nA, nB = nodes('A', 'B')
     w = D('wacc', lo=0) if wacc else 0
     m1 = mk_market(D, 'mA', nA, T, 'p', ec=True, wacc=w)
     m2 = mk_market(D, 'mB', nB, T, 'q', wacc=w)
-    st = mk_storage(D, 'sto', [nA, nB] if two_node_storage else nB, eff=eff_s, wacc=w)
+    st = mk_storage(D, 'sto', [nA, nB] if two_node_storage else nB, eff=eff_s, wacc=w, **(storage_kw or {}))
     tr = mk_transport(D, 'tr', nA, nB, eff=eff_t, wacc=w, win=win_t, tg=tg)
     pf = eao.portfolio.Portfolio([m1, st, tr, m2])
     return Shape(pf, tg, prices_for(D, ['p', 'q'], T))
